@@ -25,7 +25,10 @@ char const* const kRule
       "ends exactly once, active/alive/queued counters equal the model, "
       "active(k) = alive(k-1) + min(vacancies, queued(k-1)), the event "
       "terminates with alive = queued = 0 and the set of ended tracks equals "
-      "the set of created tracks; non-trivial = >= 1 call in which the queue "
+      "the set of created tracks; generated = primaries given, parentless "
+      "tracks per event = primaries given, no slot holds a track of another "
+      "event; optional history prefix (event abandoned after k calls + "
+      "reset_state()); non-trivial = >= 1 call in which the queue "
       "was non-empty while slots were vacant or a parent died with >= 2 "
       "secondaries";
 
@@ -97,6 +100,27 @@ Verdict run_case(Choices& c, CaseLog& log)
     int slots = p.spec.track_slots;
     long interesting = 0;
     std::set<std::pair<int, long>> created, ended;
+    // generated history prefix: an event abandoned after k Stepper calls,
+    // followed by reset_state() (what celer-sim's Transporter does after a
+    // failed event); nothing of it may survive into the following events
+    if (c.boolean(0.3))
+    {
+        int k = int(c.int_in(1, 8));
+        log.mix(k);
+        auto const& ev = p.spec.events.back();
+        auto prim = make_primaries(w, ev, 7);
+        RunResult r = run_event(w, *p.stepper, prim, 424242, k);
+        if (r.error.find("insufficient") != std::string::npos)
+            return Verdict::rejected;
+        if (!r.error.empty())
+            return log.fail("exception during transport: " + r.error);
+        p.stepper->reset_state();
+        w.rec->steps.clear();
+        snaps->calls.clear();
+        log.label(r.completed ? "prefix-completed-then-reset"
+                              : "prefix-aborted-in-flight-then-reset");
+        log.d("abort_after_calls", k);
+    }
     for (size_t e = 0; e < p.spec.events.size(); ++e)
     {
         auto prim = make_primaries(w, p.spec.events[e], int(e));
@@ -148,6 +172,16 @@ Verdict run_case(Choices& c, CaseLog& log)
         StepperResult prev{};
         for (long k = 0; k < r.calls; ++k)
         {
+            // "generated" = new primaries added by this call
+            if (long(r.results[k].generated) != (k == 0 ? long(prim.size()) : 0))
+            {
+                std::ostringstream m;
+                m << "event " << e << " call " << k
+                  << ": StepperResult.generated = " << r.results[k].generated
+                  << " but " << (k == 0 ? prim.size() : size_t(0))
+                  << " primaries were given";
+                return log.fail(m.str());
+            }
             long call = call0 + 1 + k;
             auto it = snaps->calls.find(call);
             if (it == snaps->calls.end())
@@ -161,6 +195,15 @@ Verdict run_case(Choices& c, CaseLog& log)
             for (auto const* vec : {&cs.start, &cs.post})
             {
                 std::set<std::pair<int, long>> seen;
+                for (auto const& s : *vec)
+                    if (s.track >= 0 && s.event != int(e))
+                        return log.fail(where.str() + "slot holds track "
+                                        + std::to_string(s.track)
+                                        + " of event "
+                                        + std::to_string(s.event)
+                                        + " while event "
+                                        + std::to_string(e)
+                                        + " is being transported");
                 for (auto const& s : *vec)
                     if (s.track >= 0 && !seen.insert({s.event, s.track}).second)
                         return log.fail(where.str() + "track "
@@ -266,6 +309,21 @@ Verdict run_case(Choices& c, CaseLog& log)
         return log.fail(m.str());
     }
     auto events = split_events(w.rec->steps);
+    for (size_t e = 0; e < p.spec.events.size(); ++e)
+    {
+        size_t nprim = 0;
+        auto it = events.find(int(e));
+        if (it != events.end())
+            for (auto const& tk : it->second.tracks)
+                if (tk.second.parent < 0)
+                    ++nprim;
+        if (nprim != p.spec.events[e].size())
+            return log.fail("event " + std::to_string(e) + ": "
+                            + std::to_string(p.spec.events[e].size())
+                            + " primaries were given but "
+                            + std::to_string(nprim)
+                            + " parentless tracks took steps");
+    }
     size_t in_stream = 0;
     long multi_death = 0;
     for (auto const& ek : events)
